@@ -153,6 +153,9 @@ class VGen:
         if c == 8 and self.r.random() < 0.3:
             self.ident()
             return ["userobj", "FalsyState", [["flag", self.r.choice([["bool", False], ["int", 0], ["tuple", []], ["dict", []], ["str", ""], ["int", 3], ["bool", True]])]]]
+        if c == 8 and self.r.random() < 0.2:
+            self.ident()
+            return ["list", [["userobj", "FreshState", [["db", ["float", (0.5 * (i + 1) * self.r.choice([1, -3, 7])).hex()]]]] for i in range(self.r.randint(2, 4))]]
         if c == 8:
             self.ident()
             return ["userobj", self.r.choice(["Plain", "WithState", "Slotted", "ReduceCtor"]), [["a", self.scalar()], ["b", self.scalar()]][: self.r.randint(0, 2)]]
